@@ -292,3 +292,20 @@ def eval_num(t: Term, env: Dict[Term, Any]):
         if f in table and not t[3]:
             return table[f](*args)
     raise NotEvaluable(show(t)[:60])
+
+
+def strip_casts(t: Term) -> Term:
+    """value-preserving wrappers removed everywhere in a term: np.asarray / np.array / np.ascontiguousarray / .copy() / .astype(int|float)
+    (conversions of integer ids to another integer width do not change their values)"""
+    def fn(x):
+        if x[0] == "call" and isinstance(x[1], str) and x[2]:
+            if x[1] in ("numpy.asarray", "numpy.array", "numpy.ascontiguousarray", "numpy.copy", ".copy", "numpy.asanyarray"):
+                return x[2][0]
+            if x[1] == ".astype" and len(x[2]) == 2 and ("int" in show(x[2][1]) or "float" in show(x[2][1])):
+                return x[2][0]
+        return None
+    from ..vg import subst
+    prev = None
+    while prev != t:
+        prev, t = t, subst(t, fn)
+    return t
